@@ -1556,6 +1556,9 @@ func (mgr *Manager) convertStreamJob(allConverters []*converters.CachedConverter
 					results <- result{job, err}
 					return
 				}
+				// the stream is in none of the indexes of this job (it was marked before its
+				// import completed), there is nothing to convert - but the result must be reported
+				results <- result{job, alreadyCached}
 			}()
 		}
 
